@@ -3,7 +3,6 @@
 package main
 
 import (
-	"bytes"
 	"context"
 	"encoding/json"
 	"errors"
@@ -58,8 +57,74 @@ type c12In struct {
 	Real      bool      `json:"real,omitempty"`  // real http.Transport against a port nobody listens on
 	Stall     bool      `json:"stall,omitempty"` // the transport waits for the context to end, then fails
 	TimeoutMs int64     `json:"timeout_ms,omitempty"`
+	TimeoutNs int64     `json:"timeout_ns,omitempty"`  // added to TimeoutMs: the request timeout may be tiny, and negative
+	HasTimeout bool     `json:"has_timeout,omitempty"` // SetTimeout is called even when the sum is 0 (else: only when it is not 0; the default is 30 s)
+	CallParentMs int64  `json:"call_parent_ms,omitempty"` // call: deadline of the caller's context relative to the start (0: none, < 0: already passed)
+	Debug     bool      `json:"debug,omitempty"`       // Runtime.Debug: request and response are dumped
+	Binary    bool      `json:"binary,omitempty"`      // the response is application/octet-stream (a Debug dump leaves its body out)
+	RespSize  int       `json:"resp_size,omitempty"`   // announced length of the response body (0: 3000; at least 100)
+	RespFault int       `json:"resp_fault,omitempty"`  // the response body fails: 0 no, 1 reset (an error), 2 truncated (unexpected EOF), 3 stalls until the context ends
+	RespFaultAt int     `json:"resp_fault_at,omitempty"` // after that many bytes
+	RespFaultWithData bool `json:"resp_fault_with_data,omitempty"` // the failure is reported together with the last bytes
 	// deadline
 	ParentMs int64 `json:"parent_ms,omitempty"` // -1: the caller's context has no deadline
+	RuntimeCtx bool `json:"runtime_ctx,omitempty"` // the caller's context is Runtime.Context, not ClientOperation.Context
+}
+
+const c12ReaderNeeds = 100 // bytes the response reader of the harness reads
+
+func (in c12In) timeout() time.Duration {
+	return time.Duration(in.TimeoutMs)*time.Millisecond + time.Duration(in.TimeoutNs)
+}
+func (in c12In) setsTimeout() bool { return in.HasTimeout || in.timeout() != 0 }
+
+// the request timeout in force: the one set, else the default of a new request
+func (in c12In) effTimeout() time.Duration {
+	if in.setsTimeout() {
+		return in.timeout()
+	}
+	return client.DefaultTimeout
+}
+func (in c12In) respSize() int {
+	n := in.RespSize
+	if n == 0 {
+		n = 3000
+	}
+	if n < c12ReaderNeeds {
+		n = c12ReaderNeeds
+	}
+	return n
+}
+func (in c12In) faultAt() int {
+	k := in.RespFaultAt
+	if k < 0 {
+		k = 0
+	}
+	if k > in.respSize() {
+		k = in.respSize()
+	}
+	return k
+}
+
+// timed: the exchange stalls until the context ends, so the effective deadline has to end the call
+func (in c12In) timed() bool { return in.Stall || in.RespFault == 3 }
+
+// how long a stalling stub waits at most: the effective deadline (not before the start) + the slack of the check + a little
+func (in c12In) stallCap() time.Duration {
+	var d time.Duration
+	have := false
+	if t := in.effTimeout(); t != 0 {
+		d, have = t, true
+	}
+	if in.CallParentMs != 0 {
+		if p := time.Duration(in.CallParentMs) * time.Millisecond; !have || p < d {
+			d, have = p, true
+		}
+	}
+	if !have || d < 0 {
+		d = 0
+	}
+	return d + 2300*time.Millisecond
 }
 
 type c12Obs struct {
@@ -81,10 +146,11 @@ type c12Obs struct {
 	ReqBodyClosed bool   `json:"req_body_closed"`
 	InTime        bool   `json:"in_time"`
 	ElapsedMs     int64  `json:"-"`
-	// deadline (microseconds relative to the start of the call)
+	ElapsedNs     int64  `json:"-"`
+	// deadline (nanoseconds relative to the start of the call)
 	HasDeadline bool  `json:"has_deadline"`
-	DeadlineUs  int64 `json:"-"`
-	DurationUs  int64 `json:"-"`
+	DeadlineNs  int64 `json:"-"`
+	DurationNs  int64 `json:"-"`
 }
 
 type c12 struct{}
@@ -98,7 +164,9 @@ func (c12) Rule() string {
 		"call: multipart requests with 0-3 form values and 1-3 upload sources (declared or sniffed, a failing Read placed at the sniff or at any copy chunk) x " +
 		"parameter error / auth writer none, ok, failing, asking for the body or not / URL error / transport failing after reading nothing, a little, everything / " +
 		"transport answering after reading nothing, a little, everything / response read, no consumer, reader failing / connection reuse on, off / a real http.Transport with nobody listening / a stalled transport ended by the request timeout; " +
-		"deadline: caller deadline present or absent x timeout 0 or not. Non-trivial: every drain case with at least one segment, every call case, every deadline case."
+		"Runtime.Debug on/off (request and response dumped) / response body of a consumed, unknown or binary type, complete or failing (reset, truncated, stalled) at every offset; " +
+		"timed calls (stalled transport or stalled response body) under negative, tiny and ordinary request timeouts and caller deadlines shorter, longer, alone, already passed; " +
+		"deadline: caller deadline absent, on the operation or on the runtime x timeout 0, negative, tiny, ordinary. Non-trivial: every drain case with at least one segment, every call case, every deadline case."
 }
 
 func (c12) Decode(raw json.RawMessage) (any, error) {
@@ -225,13 +293,70 @@ type c12SrcCT struct{ *c12Src }
 
 func (c12SrcCT) ContentType() string { return "application/octet-stream" }
 
+var errC12Reset = errors.New("c12: connection reset while the response body was read")
+var errC12Cap = errors.New("c12: the stalled exchange was not ended by its deadline")
+
+// the response body: size bytes; with a fault the bytes before offset at are delivered, then every Read fails
 type c12RespBody struct {
-	r      *bytes.Reader
-	closes int32
+	size, at int
+	fault    int // 0 none, 1 reset, 2 truncated, 3 stalls until the context ends
+	withData bool
+	ctx      context.Context
+	cap      time.Duration
+	pos      int32
+	closes   int32
 }
 
-func (b *c12RespBody) Read(p []byte) (int, error) { return b.r.Read(p) }
-func (b *c12RespBody) Close() error               { atomic.AddInt32(&b.closes, 1); return nil }
+func (b *c12RespBody) limit() int {
+	if b.fault != 0 {
+		return b.at
+	}
+	return b.size
+}
+
+func (b *c12RespBody) fail() error {
+	switch b.fault {
+	case 1:
+		return errC12Reset
+	case 2:
+		return io.ErrUnexpectedEOF
+	}
+	select {
+	case <-b.ctx.Done():
+		return b.ctx.Err()
+	case <-time.After(b.cap):
+		return errC12Cap
+	}
+}
+
+func (b *c12RespBody) Read(p []byte) (int, error) {
+	pos, lim := int(atomic.LoadInt32(&b.pos)), b.limit()
+	if pos >= lim {
+		if b.fault != 0 {
+			return 0, b.fail()
+		}
+		return 0, io.EOF
+	}
+	n := len(p)
+	if n > lim-pos {
+		n = lim - pos
+	}
+	for i := 0; i < n; i++ {
+		p[i] = 'r'
+	}
+	atomic.StoreInt32(&b.pos, int32(pos+n))
+	if b.fault != 0 && b.withData && pos+n == lim {
+		return n, b.fail()
+	}
+	return n, nil
+}
+func (b *c12RespBody) Close() error { atomic.AddInt32(&b.closes, 1); return nil }
+func (b *c12RespBody) left() int   { return b.limit() - int(atomic.LoadInt32(&b.pos)) }
+
+type c12NoLog struct{}
+
+func (c12NoLog) Printf(string, ...interface{}) {}
+func (c12NoLog) Debugf(string, ...interface{}) {}
 
 // c12Settle is how long the runtime is given to let the goroutine exit and the files be closed: 2 s unless
 // VERIF_C12_SETTLE_MS says otherwise (used by the mutation self-test to keep leaking mutants quick).
@@ -276,9 +401,15 @@ func c12RunCall(in c12In) c12Obs {
 			}
 		}
 		if in.Stall {
-			<-req.Context().Done()
+			var err error
+			select {
+			case <-req.Context().Done():
+				err = req.Context().Err()
+			case <-time.After(in.stallCap()):
+				err = errC12Cap
+			}
 			closeBody()
-			return nil, req.Context().Err()
+			return nil, err
 		}
 		var bodyErr error
 		if req.Body != nil {
@@ -302,10 +433,14 @@ func c12RunCall(in c12In) c12Obs {
 		ct := "application/json"
 		if in.Resp == 1 {
 			ct = "application/x-nobody-consumes-this"
+		} else if in.Binary {
+			ct = "application/octet-stream"
 		}
-		respBody = &c12RespBody{r: bytes.NewReader(bytes.Repeat([]byte("r"), 3000))}
+		respBody = &c12RespBody{size: in.respSize(), at: in.faultAt(), fault: in.RespFault, withData: in.RespFaultWithData,
+			ctx: req.Context(), cap: in.stallCap()}
 		return &http.Response{StatusCode: 200, Status: "200 OK", Proto: "HTTP/1.1", ProtoMajor: 1, ProtoMinor: 1,
-			Header: http.Header{"Content-Type": {ct}}, Body: respBody, Request: req}, nil
+			ContentLength: int64(in.respSize()),
+			Header:        http.Header{"Content-Type": {ct}}, Body: respBody, Request: req}, nil
 	})
 	r.Transport = stub
 	if in.Real {
@@ -315,10 +450,12 @@ func c12RunCall(in c12In) c12Obs {
 	if in.KeepAlive {
 		r.EnableConnectionReuse()
 	}
+	r.Debug = in.Debug
+	r.SetLogger(c12NoLog{})
 	errParam, errAuth, errReader := errors.New("c12: parameter refused"), errors.New("c12: auth refused"), errors.New("c12: reader refused")
 	writer := rt.ClientRequestWriterFunc(func(req rt.ClientRequest, _ strfmt.Registry) error {
-		if in.TimeoutMs > 0 {
-			_ = req.SetTimeout(time.Duration(in.TimeoutMs) * time.Millisecond)
+		if in.setsTimeout() {
+			_ = req.SetTimeout(in.timeout())
 		}
 		if in.NValues > 0 {
 			vals := make([]string, in.NValues)
@@ -360,7 +497,9 @@ func c12RunCall(in c12In) c12Obs {
 		ConsumesMediaTypes: []string{"multipart/form-data"}, Schemes: []string{"http"},
 		Params: writer, AuthInfo: auth,
 		Reader: rt.ClientResponseReaderFunc(func(resp rt.ClientResponse, _ rt.Consumer) (interface{}, error) {
-			_, _ = io.ReadFull(resp.Body(), make([]byte, 100))
+			if _, err := io.ReadFull(resp.Body(), make([]byte, c12ReaderNeeds)); err != nil {
+				return nil, err // the response is not complete
+			}
 			if in.Resp == 2 {
 				return nil, errReader
 			}
@@ -368,6 +507,11 @@ func c12RunCall(in c12In) c12Obs {
 		}),
 	}
 	start := time.Now()
+	if in.CallParentMs != 0 {
+		ctx, cancel := context.WithDeadline(context.Background(), start.Add(time.Duration(in.CallParentMs)*time.Millisecond))
+		defer cancel()
+		op.Context = ctx
+	}
 	type out struct {
 		res interface{}
 		err error
@@ -389,17 +533,18 @@ func c12RunCall(in c12In) c12Obs {
 	}
 	elapsed := time.Since(start)
 	obs.ElapsedMs = elapsed.Milliseconds()
+	obs.ElapsedNs = elapsed.Nanoseconds()
 	obs.Panicked, obs.Panic = o.pn, o.msg
 	obs.OK = o.err == nil && !o.pn
 	if o.err != nil {
 		obs.Err = o.err.Error()
 	}
-	obs.InTime = true
-	if in.TimeoutMs > 0 && elapsed > time.Duration(in.TimeoutMs)*time.Millisecond+2*time.Second {
-		obs.InTime = false
-	}
+	// whether a timed call came back by its effective deadline is decided inside Coq (Check_C12.in_time);
+	// here only the watchdog
+	obs.InTime = o.err == nil || !strings.HasPrefix(o.err.Error(), "watchdog:")
 	// let the runtime settle: poll up to 2 s for the goroutine to be gone and every source to be closed
-	deadline := time.Now().Add(c12Settle())
+	returned := time.Now()
+	deadline := returned.Add(c12Settle())
 	for {
 		gone := c12Goroutines() <= baseline
 		closed := true
@@ -408,7 +553,8 @@ func c12RunCall(in c12In) c12Obs {
 				closed = false
 			}
 		}
-		respClosed := respBody == nil || atomic.LoadInt32(&respBody.closes) > 0
+		// the response body is closed by Submit itself, before it returns: no need to wait long for that
+		respClosed := respBody == nil || atomic.LoadInt32(&respBody.closes) > 0 || time.Since(returned) > 100*time.Millisecond
 		if (gone && closed && respClosed) || time.Now().After(deadline) {
 			obs.GoroutineGone = gone
 			break
@@ -419,7 +565,7 @@ func c12RunCall(in c12In) c12Obs {
 		obs.FileCloses = append(obs.FileCloses, int(atomic.LoadInt32(&s.closes)))
 	}
 	if respBody != nil {
-		obs.RespOpened, obs.RespCloses, obs.RespLeft = 1, int(atomic.LoadInt32(&respBody.closes)), respBody.r.Len()
+		obs.RespOpened, obs.RespCloses, obs.RespLeft = 1, int(atomic.LoadInt32(&respBody.closes)), respBody.left()
 	}
 	obs.ReqBodyClosed = atomic.LoadInt32(&reqBodyClosed) == 1
 	return obs
@@ -442,20 +588,26 @@ func c12RunDeadline(in c12In) c12Obs {
 		ID: "d", Method: "GET", PathPattern: "/d", ProducesMediaTypes: []string{"application/json"},
 		ConsumesMediaTypes: []string{"application/json"}, Schemes: []string{"http"},
 		Params: rt.ClientRequestWriterFunc(func(req rt.ClientRequest, _ strfmt.Registry) error {
-			return req.SetTimeout(time.Duration(in.TimeoutMs) * time.Millisecond)
+			return req.SetTimeout(in.timeout())
 		}),
 		Reader: rt.ClientResponseReaderFunc(func(rt.ClientResponse, rt.Consumer) (interface{}, error) { return nil, nil }),
 	}
 	if in.ParentMs >= 0 {
 		ctx, cancel := context.WithDeadline(context.Background(), start.Add(time.Duration(in.ParentMs)*time.Millisecond))
 		defer cancel()
-		op.Context = ctx
+		if in.RuntimeCtx {
+			r.Context = ctx
+		} else {
+			op.Context = ctx
+		}
 	}
+	r.Debug = in.Debug
+	r.SetLogger(c12NoLog{})
 	obs.Panicked, obs.Panic = recoverTo(func() { _, _ = r.Submit(op) })
-	obs.DurationUs = time.Since(start).Microseconds() + 1
+	obs.DurationNs = time.Since(start).Nanoseconds() + 1
 	obs.HasDeadline = has
 	if has {
-		obs.DeadlineUs = dl.Sub(start).Microseconds()
+		obs.DeadlineNs = dl.Sub(start).Nanoseconds()
 	}
 	obs.InTime = true
 	return obs
@@ -486,12 +638,12 @@ func (c12) Coq(inAny any, obsAny any) string {
 	case "deadline":
 		parent, observed := "None", "None"
 		if in.ParentMs >= 0 {
-			parent = "(Some " + coqZ(in.ParentMs*1000) + ")"
+			parent = "(Some " + coqZ(in.ParentMs*1000000) + ")"
 		}
 		if obs.HasDeadline {
-			observed = "(Some " + coqZ(obs.DeadlineUs) + ")"
+			observed = "(Some " + coqZ(obs.DeadlineNs) + ")"
 		}
-		return fmt.Sprintf("CDeadline %s %s %s %s", parent, coqZ(in.TimeoutMs*1000), observed, coqZ(obs.DurationUs))
+		return fmt.Sprintf("CDeadline %s %s %s %s", parent, coqZ(in.timeout().Nanoseconds()), observed, coqZ(obs.DurationNs))
 	}
 	files := coqList(in.Files, func(f c12File) string {
 		return fmt.Sprintf("(mkfp %s %s %s)", coqBool(f.Declared), coqBool(f.SniffOK), coqList(f.Chunks, coqBool))
@@ -514,20 +666,57 @@ func (c12) Coq(inAny any, obsAny any) string {
 		}
 		tr = fmt.Sprintf("(TFail %d)", reads)
 	} else {
-		resp := []string{"RespRead", "RespNoConsumer", "RespReaderFails"}[in.Resp]
+		ctype := "CtConsumed"
+		if in.Resp == 1 {
+			ctype = "CtUnknown"
+		} else if in.Binary {
+			ctype = "CtBinary"
+		}
+		fault := "RFNone"
+		if in.RespFault != 0 {
+			fault = "RFLate"
+			if in.faultAt() < c12ReaderNeeds {
+				fault = "RFEarly"
+			}
+		}
+		resp := fmt.Sprintf("(mkrb %s %s %s)", ctype, coqBool(in.Resp == 2), fault)
 		if reads < 0 {
 			tr = "(TRespond None " + resp + ")"
 		} else {
 			tr = fmt.Sprintf("(TRespond (Some %d) %s)", reads, resp)
 		}
 	}
-	sc := fmt.Sprintf("(mksc %s %s %s %s)", coqBool(in.ParamErr), auth, coqBool(in.LateErr), tr)
+	sc := fmt.Sprintf("(mksc %s %s %s %s %s)", coqBool(in.ParamErr), auth, coqBool(in.LateErr), tr, coqBool(in.Debug))
+	parent := "None"
+	if in.CallParentMs != 0 {
+		parent = "(Some " + coqZ(in.CallParentMs*1000000) + ")"
+	}
+	tm := fmt.Sprintf("(mktm %s %s %s %s)", coqBool(in.timed()), parent, coqZ(in.effTimeout().Nanoseconds()), coqZ(obs.ElapsedNs))
+	if !in.timed() {
+		tm = "(mktm false None 0%Z 0%Z)"
+	}
 	o := fmt.Sprintf("(mkco %s %s %s %d %d %s %s %s)", coqBool(obs.OK), c12Nats(obs.FileCloses), coqBool(obs.GoroutineGone),
 		obs.RespOpened, obs.RespCloses, coqNatBig(obs.RespLeft), coqBool(obs.ReqBodyClosed), coqBool(obs.InTime && !obs.Panicked))
-	return fmt.Sprintf("CCall %d %s %s %s %s", in.NValues, files, sc, coqBool(in.KeepAlive), o)
+	return fmt.Sprintf("CCall %d %s %s %s %s %s", in.NValues, files, sc, coqBool(in.KeepAlive), o, tm)
 }
 
-func (c12) Classify(inAny any, obsAny any) []string { return nil }
+func (c12) Classify(inAny any, obsAny any) []string {
+	in, obs := inAny.(c12In), obsAny.(c12Obs)
+	// F-C12-5 (fixed, f5633e1): Debug on, a response with a printable type read without fault: the dump closes the
+	// body it has copied and the Close deferred before the dump closed it again. The entry is closed, so the tag
+	// excuses nothing: a case that shows the double Close again is reported as a VIOLATION like any other; the
+	// tag only names the old defect in the report.
+	if in.Kind == "call" && in.Debug && in.RespFault == 0 && (in.Resp == 1 || !in.Binary) &&
+		obs.RespOpened == 1 && obs.RespCloses == 2 && obs.GoroutineGone && !obs.Panicked {
+		for _, c := range obs.FileCloses {
+			if c != 1 {
+				return nil
+			}
+		}
+		return []string{"lifecycle.debug_dump_closes_response_body_twice"}
+	}
+	return nil
+}
 
 func (c12) Category(inAny any, obsAny any) (string, bool) {
 	in := inAny.(c12In)
@@ -539,9 +728,17 @@ func (c12) Category(inAny any, obsAny any) (string, bool) {
 		if in.ParentMs < 0 {
 			p = "noparent"
 		}
+		if in.ParentMs >= 0 && in.RuntimeCtx {
+			p = "runtime-parent"
+		}
 		t := "timeout"
-		if in.TimeoutMs == 0 {
+		switch d := in.timeout(); {
+		case d == 0:
 			t = "notimeout"
+		case d < 0:
+			t = "negative-timeout"
+		case d < time.Millisecond:
+			t = "tiny-timeout"
 		}
 		return "deadline/" + p + "/" + t, true
 	}
@@ -560,14 +757,31 @@ func (c12) Category(inAny any, obsAny any) (string, bool) {
 	case in.Real:
 		t = "real-transport-refused"
 	case in.Stall:
-		t = "stalled-until-timeout"
+		t = "stalled/" + c12DeadlineClass(in)
 	case in.Fail:
 		t = "fails"
 	default:
 		t += "/" + []string{"read", "no-consumer", "reader-fails"}[in.Resp]
+		if in.Binary && in.Resp != 1 {
+			t += "/binary"
+		}
+		if in.RespFault != 0 {
+			t += "/body-" + []string{"", "reset", "truncated", "stalls"}[in.RespFault]
+			if in.faultAt() < c12ReaderNeeds {
+				t += "-early"
+			} else {
+				t += "-late"
+			}
+			if in.RespFault == 3 {
+				t += "/" + c12DeadlineClass(in)
+			}
+		}
 		if in.KeepAlive {
 			t += "/reuse"
 		}
+	}
+	if in.Debug {
+		t += "/debug"
 	}
 	rd := "all"
 	if in.Reads == 0 {
@@ -589,7 +803,49 @@ func (c12) Category(inAny any, obsAny any) (string, bool) {
 	return "call/" + a + "/" + t + "/body-" + rd + "/" + failing, true
 }
 
+// which bound ends a timed call
+func c12DeadlineClass(in c12In) string {
+	t := "default-timeout"
+	if in.setsTimeout() {
+		switch d := in.timeout(); {
+		case d == 0:
+			t = "no-timeout"
+		case d < 0:
+			t = "negative-timeout"
+		case d < time.Millisecond:
+			t = "tiny-timeout"
+		default:
+			t = "timeout"
+		}
+	}
+	switch {
+	case in.CallParentMs < 0:
+		t += "+parent-passed"
+	case in.CallParentMs > 0:
+		t += "+parent"
+	}
+	return t
+}
+
 // ---------- generator ----------
+
+// request timeouts: none, negative (an already exhausted budget), tiny, ordinary (nanoseconds)
+var c12TimeoutsNs = []int64{0, -1, -1000, -1_000_000, -3600_000_000_000, 1, 1000, 1_000_000, 50_000_000, 3600_000_000_000, 9000_000_000_000}
+
+// bounds of a timed call: (timeout ns, SetTimeout called, caller deadline ms); each ends the call within about 60 ms
+var c12TimedBounds = []struct {
+	ns     int64
+	set    bool
+	parent int64
+}{
+	{-1, true, 0}, {-1_000_000, true, 0}, {-3600_000_000_000, true, 0}, {1, true, 0}, {1000, true, 0}, {30_000_000, true, 0}, {60_000_000, true, 0},
+	{0, true, 40}, {0, true, -5}, {0, false, 25}, {3600_000_000_000, true, 30}, {20_000_000, true, 3600_000}, {-1_000_000, true, 3600_000}, {1000, true, -3600_000},
+}
+
+func c12SetBound(in *c12In, k int) {
+	b := c12TimedBounds[k%len(c12TimedBounds)]
+	in.TimeoutMs, in.TimeoutNs, in.HasTimeout, in.CallParentMs = 0, b.ns, b.set, b.parent
+}
 
 func c12GenFiles(r *rand.Rand, allowFail bool) []c12File {
 	var fs []c12File
@@ -628,12 +884,18 @@ func (c12) Gen(r *rand.Rand, tier string, i int) any {
 		}
 		return in
 	case k < 5:
-		in := c12In{Kind: "deadline", ParentMs: -1}
+		in := c12In{Kind: "deadline", ParentMs: -1, Debug: r.Intn(4) == 0}
 		if r.Intn(2) == 0 {
-			in.ParentMs = int64(3600_000 * (1 + r.Intn(5)))
+			in.ParentMs = []int64{0, 1, 3600_000, 7200_000, int64(3600_000 * (1 + r.Intn(5)))}[r.Intn(5)]
+			in.RuntimeCtx = r.Intn(3) == 0
 		}
-		if r.Intn(3) != 0 {
+		switch r.Intn(4) {
+		case 0:
 			in.TimeoutMs = int64(3600_000*(1+r.Intn(5)) + r.Intn(1000))
+		case 1:
+			in.TimeoutNs = c12TimeoutsNs[r.Intn(len(c12TimeoutsNs))]
+		case 2: // any sign, any magnitude
+			in.TimeoutNs = (r.Int63n(2_000_000) - 1_000_000) * []int64{1, 1000, 1_000_000}[r.Intn(3)]
 		}
 		return in
 	}
@@ -641,8 +903,25 @@ func (c12) Gen(r *rand.Rand, tier string, i int) any {
 		Fail: r.Intn(2) == 0, Reads: []int{-1, -1, 0, 1}[r.Intn(4)], Resp: r.Intn(3), KeepAlive: r.Intn(2) == 0, ParamErr: r.Intn(15) == 0}
 	// a failing source together with a transport that answers after reading only part of the body is left
 	// out: whether the failing Read is reached then depends on pipe write boundaries, which the model abstracts
-	allowFail := in.Fail || in.Reads <= 0
+	in.Debug = r.Intn(3) == 0
+	allowFail := in.Fail || in.Reads <= 0 || in.Debug // the Debug dump of the request reads the whole body
 	in.Files = c12GenFiles(r, allowFail)
+	if !in.Fail {
+		in.Binary = r.Intn(4) == 0
+		if r.Intn(3) == 0 { // the response body fails while it is read, anywhere
+			in.RespSize = []int{100, 130, 3000}[r.Intn(3)]
+			in.RespFault = 1 + r.Intn(2)
+			in.RespFaultAt = r.Intn(in.RespSize + 1)
+			in.RespFaultWithData = r.Intn(2) == 0
+			if r.Intn(12) == 0 {
+				in.RespFault = 3
+				c12SetBound(&in, r.Intn(1000))
+			}
+		}
+	} else if r.Intn(25) == 0 {
+		in.Stall, in.Reads = true, 0
+		c12SetBound(&in, r.Intn(1000))
+	}
 	return in
 }
 
@@ -693,9 +972,59 @@ func (c12) Enumerate(tier string) []any {
 	}
 	out = append(out, c12In{Kind: "call", NValues: 1, Files: progs[1], Stall: true, Fail: true, Reads: 0, TimeoutMs: 60})
 	out = append(out, c12In{Kind: "call", NValues: 0, Files: progs[0], Stall: true, Fail: true, Reads: 0, TimeoutMs: 120, Auth: 1, Asks: true})
-	for _, p := range []int64{-1, 7200_000} {
-		for _, t := range []int64{0, 3600_000, 9000_000} {
-			out = append(out, c12In{Kind: "deadline", ParentMs: p, TimeoutMs: t})
+	// a stalled transport under every kind of bound: negative, tiny, ordinary timeout; the caller's deadline alone,
+	// shorter, longer, already passed; Debug on and off
+	for k := range c12TimedBounds {
+		for _, dbg := range []bool{false, true} {
+			in := c12In{Kind: "call", NValues: k % 2, Files: progs[k%2], Stall: true, Fail: true, Reads: 0, Debug: dbg, KeepAlive: k%3 == 0}
+			c12SetBound(&in, k)
+			out = append(out, in)
+		}
+	}
+	// the response body fails at every offset (before, at and after what the response reader reads, up to its very end)
+	// x Debug on/off x connection reuse on/off; reset and truncation alternate, so does error-with-data
+	const size = 130
+	for at := 0; at <= size; at++ {
+		for _, dbg := range []bool{false, true} {
+			for _, ka := range []bool{false, true} {
+				if tier != "thorough" && at > 3 && at < 97 && at%4 != 0 { // quick: every offset near 0, around the reader's need and to the end; every 4th in between
+					continue
+				}
+				out = append(out, c12In{Kind: "call", NValues: at % 2, Files: progs[0], Reads: -1, Debug: dbg, KeepAlive: ka,
+					RespSize: size, RespFault: 1 + at%2, RespFaultAt: at, RespFaultWithData: (at/2)%2 == 0, Binary: at%5 == 4, Resp: []int{0, 0, 0, 2, 1}[at%5]})
+			}
+		}
+	}
+	// ... and stalls there until the deadline ends the exchange
+	for i, at := range []int{0, 50, 100, size} {
+		for j, dbg := range []bool{false, true} {
+			for _, ka := range []bool{false, true} {
+				in := c12In{Kind: "call", Files: progs[0], Reads: -1, Debug: dbg, KeepAlive: ka, RespSize: size, RespFault: 3, RespFaultAt: at}
+				c12SetBound(&in, 2*i+j+3)
+				out = append(out, in)
+			}
+		}
+	}
+	// a complete response: every content type x reader behaviour x Debug x reuse
+	for _, dbg := range []bool{false, true} {
+		for _, ka := range []bool{false, true} {
+			for resp := 0; resp < 3; resp++ {
+				for _, bin := range []bool{false, true} {
+					if bin && resp == 1 {
+						continue
+					}
+					out = append(out, c12In{Kind: "call", Files: progs[1], Reads: -1, Debug: dbg, KeepAlive: ka, Resp: resp, Binary: bin, RespSize: 100})
+					out = append(out, c12In{Kind: "call", NValues: 1, Files: progs[3], Reads: 0, Debug: dbg, KeepAlive: ka, Resp: resp, Binary: bin, Auth: 1})
+				}
+			}
+		}
+	}
+	for _, p := range []int64{-1, 0, 7200_000} {
+		for _, t := range c12TimeoutsNs {
+			out = append(out, c12In{Kind: "deadline", ParentMs: p, TimeoutNs: t})
+			if p >= 0 {
+				out = append(out, c12In{Kind: "deadline", ParentMs: p, TimeoutNs: t, RuntimeCtx: true, Debug: t%2 == 0})
+			}
 		}
 	}
 	return out
